@@ -50,7 +50,7 @@ def check (par : Bool) (base : String) (feats : List String) (A : FRows) (agg : 
     | some c =>
       let t := ((T.getD i []).filter (·.1 == c)).foldl (fun s e => s + e.2) 0
       let b := B.getD i 0
-      if !((t * R.getD c 0 - b).abs ≤ 1e-10 * (b.abs + 1)) then
+      if !((t * R.getD c 0 - b).abs ≤ 1e-9 * b.abs + 1e-290) then
         return specFail (base ++ "/spec/TR_ne_B") s!"vertex {i}: T*R = {t * R.getD c 0}, B = {b}" feats
     | none => if !(T.getD i []).all (fun e => e.2 == 0) then return specFail (base ++ "/spec/T_support") s!"unaggregated vertex {i} has entries" feats
   -- P = (I − ω D⁻¹ A)^k T
